@@ -77,6 +77,18 @@ def canaries(P=None):
     a_ = schema.make_instance(st, "Count", 1)
     rs = cx.X.run(st, cx.fi, [a_, NONE])
     res.append(("exc:count-add-none-raises", str([r.exc for r in rs]), "all raise", all(r.exc is not None for r in rs) and len(rs) > 0))
+    # 6 laws layer: a wrong algebraic law over the spec functions is refuted
+    from . import laws
+    from spec import specs
+
+    for K in ("Sum", "Bin", "SparselyBin"):
+        st = State()
+        sh = laws.shared_for(st, K)
+        a, b, c = (laws.sym_view(st, K, t, sh) for t in "abc")
+        laws.assume_compat(st, K, a, b)
+        out = {"records": []}
+        laws.prove(out, "C01", K, "canary", "plus-is-left-operand", st, lambda s: laws.eq(s, K, specs.plus(K, s, a, b), a, "x"), "quick")
+        res.append((f"laws:{K}:plus-is-not-projection", out["records"][0]["verdict"], "sat", out["records"][0]["verdict"] == "sat"))
     return res
 
 
